@@ -185,6 +185,18 @@ Proof.
 Qed.
 Print Assumptions c06_one_query_in_flight.
 
+(* Reads that share an in-flight query: a waiter of a flight returns exactly the result the flight's executing call
+   published, and nothing anybody does afterwards changes that published result -- in particular not the further
+   calls (SetCache, reads of other keys) the executing goroutine goes on to make: only the end of the executing
+   call of flight f writes the result of f. *)
+Theorem c06_waiter_gets_leader_result :
+  (forall s s' t f, pc_of s t = CA.RWait f -> CA.step (C18.Conc.Thr t) s = Some s' ->
+     exists r, CA.fres s f = Some r /\ CA.t_res (CA.ts s' t) = (false, r) :: CA.t_res (CA.ts s t) /\ pc_of s' t = CA.Idle) /\
+  (forall l s s' f r, CA.step l s = Some s' -> CA.fres s f = Some r ->
+     (forall t r', l = C18.Conc.Thr t -> pc_of s t <> CA.REnd f r') -> CA.fres s' f = Some r).
+Proof. split; [exact waiter_result | exact flight_result_stable]. Qed.
+Print Assumptions c06_waiter_gets_leader_result.
+
 (* "never a value older than the last completed write", under concurrency.  ExecCtx is two steps (database
    write; delete the keys), doTake three (GET; query; SETEX).  Over EVERY interleaving of any number of
    such readers and writers: whenever no writer sits between its write and its delete, and no reader has
@@ -208,7 +220,9 @@ Proof. exact read_after_quiescence. Qed.
 Print Assumptions c06_read_after_quiescence.
 
 Theorem c06_raced_only_by_straddle : forall l s s', CA.step l s = Some s' -> CA.raced s = false -> CA.raced s' = true ->
-  exists t f v, l = C18.Conc.Thr t /\ pc_of s t = CA.RSet f v true.
+  exists t, l = C18.Conc.Thr t /\
+    ((exists f v, pc_of s t = CA.RSet f v true) \/
+     (pc_of s t = CA.SSet /\ CA.k_val (CA.t_op (CA.ts s t)) <> CA.db s (key_of s t))).
 Proof. exact raced_only_by_straddle. Qed.
 Print Assumptions c06_raced_only_by_straddle.
 
